@@ -80,6 +80,19 @@ def selection_discipline(ctx, R, funcs=None):
                                                                             and isinstance(x.args[0], ast.Name) and x.args[0].id in sel for x in [e.left] + list(e.comparators)) \
                         and _empty_test(e):
                     bad = bad or (t, [x.args[0].id for x in [e.left] + list(e.comparators) if isinstance(x, ast.Call) and x.args and isinstance(x.args[0], ast.Name)][0], "its length")
+        rebound = None
+        for n in body_nodes(f):
+            if isinstance(n, ast.Assign) and len(n.targets) == 1 and isinstance(n.targets[0], ast.Name) and n.targets[0].id in sel and n is not sel[n.targets[0].id]:
+                v = n.value
+                from_sel = isinstance(v, ast.Call) and (dotted(v.func) or "").split(".")[-1] in SELECTORS
+                derived = n.targets[0].id in names_in(v)       # e.g. wrapping the ids into handles: still the same selection
+                is_none = isinstance(v, ast.Constant) and v.value is None
+                if not (from_sel or derived or is_none) and getattr(n, "lineno", 0) > getattr(sel[n.targets[0].id], "lineno", 0):
+                    rebound = rebound or n
+        if rebound is not None and bad is None:
+            out.append(ctx.viol(R, f, rebound, f"the selection is replaced by `{canon(rebound.value)[:60]}` after it was computed from -f / -j: jobs the user did not select are acted on",
+                                construct=k))
+            continue
         if bad:
             t, nm, what = bad
             out.append(ctx.viol(R, f, t, f"`{canon(t)[:50]}` decides on the selection `{nm}` by {what}: a filter that matches no job (an empty selection) is then treated like no selection at all "
@@ -150,6 +163,8 @@ def selection_from_source(ctx, R):
 FORWARD = {
     "main_sync": ("sync", {"exclude": "exclude", "deep": "deep", "dry_run": "dry_run", "recursive": "recursive", "parallel": "parallel"}),
     "main_schema": ("detect_schema", {"exclude_const": "exclude_const"}),
+    "main_move": ("get_project", {"path": "project"}),
+    "main_clone": ("get_project", {"path": "project"}),
 }
 
 
@@ -161,7 +176,14 @@ def option_forwarding(ctx, R, funcs):
         if f is None:
             out.append(ctx.inc(R, None, None, f"{fname} not found", construct=f"{MAIN}:{fname}|forwarding"))
             continue
-        calls = [c for c in body_nodes(f) if isinstance(c, ast.Call) and isinstance(c.func, ast.Attribute) and c.func.attr == api]
+        calls = [c for c in body_nodes(f) if isinstance(c, ast.Call) and ((isinstance(c.func, ast.Attribute) and c.func.attr == api) or (isinstance(c.func, ast.Name) and c.func.id == api))]
+        # the helpers of the module that the sub-command hands its arguments to are part of it
+        if fname in ("main_move", "main_clone"):
+            for g in ctx.prog.functions_of_module(MAIN):
+                if not g.name.startswith("main_") and any(isinstance(c, ast.Call) and g.qual in common.targets_of(ctx, f, c) for c in body_nodes(f)):
+                    calls += [c for c in body_nodes(g) if isinstance(c, ast.Call) and isinstance(c.func, ast.Name) and c.func.id == api]
+        withkw = [c for c in calls if (set(table) & set(effective_keywords(ctx, f, c))) or c.args]
+        calls = withkw or calls
         if not calls:
             out.append(ctx.inc(R, f, f.node, f"no .{api}(...) call in {fname}", construct=f"{f.qual}|forwarding"))
             continue
@@ -175,7 +197,7 @@ def option_forwarding(ctx, R, funcs):
                 continue
             if v is None:
                 # positional form of detect_schema(exclude_const, subset)
-                if api == "detect_schema" and kw == "exclude_const" and c.args:
+                if api in ("detect_schema", "get_project") and c.args:
                     v = c.args[0]
                 else:
                     out.append(ctx.viol(R, f, c, f"{fname} does not pass {kw}= to .{api}(): the option --{attr.replace('_', '-')} has no effect", construct=k))
@@ -227,3 +249,40 @@ def move_delegates(ctx, R):
     if not moves:
         return [ctx.inc(R, f, f.node, "no .move() call in main_move", construct=k)]
     return [ctx.ok(R, f, moves[0], "signac move is Job.move and nothing else", construct=k)]
+
+
+def sync_strategy_origin(ctx, R):
+    """signac sync takes its file strategy from FileSync (by name) and applies the --key pattern anchored (re.match), as DocSync.ByKey(str) does: the CLI defines
+    no strategy of its own and does not widen the key selection to a substring search."""
+    f = ctx.prog.funcs.get(MAIN + ":main_sync")
+    k = MAIN + ":main_sync|strategy-origin"
+    if f is None:
+        return [ctx.inc(R, None, None, "main_sync not found", construct=k)]
+    out = []
+    syncs = [c for c in body_nodes(f) if isinstance(c, ast.Call) and isinstance(c.func, ast.Attribute) and c.func.attr == "sync" and "strategy" in effective_keywords(ctx, f, c)]
+    if not syncs:
+        return [ctx.inc(R, f, f.node, "no .sync(strategy=...) call in main_sync", construct=k)]
+    v = effective_keywords(ctx, f, syncs[0])["strategy"]
+    bad = None
+    if isinstance(v, ast.Name):
+        for a in body_nodes(f):
+            if isinstance(a, ast.Assign) and any(isinstance(t, ast.Name) and t.id == v.id for t in a.targets):
+                val = a.value
+                ok = (isinstance(val, ast.Constant) and val.value is None) or "FileSync" in canon(val) or (isinstance(val, ast.Call) and isinstance(val.func, ast.Name) and val.func.id.startswith("_"))
+                if isinstance(val, ast.Lambda) or not ok:
+                    bad = bad or a
+            elif isinstance(a, (ast.FunctionDef, ast.AsyncFunctionDef)) and a.name == v.id:
+                bad = bad or a
+    if bad is not None:
+        out.append(ctx.viol(R, f, bad, f"main_sync builds a file strategy of its own (`{canon(bad)[:60]}`): the command line then decides conflicts differently from the FileSync strategy of the "
+                            "same name (e.g. overwrites a destination file that is not older)", construct=k))
+    else:
+        out.append(ctx.ok(R, f, syncs[0], "the file strategy is looked up in FileSync", construct=k))
+    k2 = MAIN + ":main_sync|key-anchored"
+    searches = [c for c in ast.walk(f.node) if isinstance(c, ast.Call) and ((dotted(c.func) or "") in ("re.search", "re.findall", "re.finditer") or (isinstance(c.func, ast.Attribute) and c.func.attr in ("search", "findall", "finditer")))]
+    if searches:
+        out.append(ctx.viol(R, f, searches[0], f"the --key pattern is applied with `{canon(searches[0].func)}`: an unanchored pattern selects every key that merely contains it ('a' selects "
+                            "'nested.a' and 'data'), so keys the user did not select are overwritten - unlike DocSync.ByKey('a')", construct=k2))
+    else:
+        out.append(ctx.ok(R, f, f.node, "the --key pattern is matched from the start of the key", construct=k2))
+    return out
